@@ -794,7 +794,7 @@ func checkAll(bc *core.BasicCluster, ri *core.RegionsInfo, m *model, probes []st
 		}
 	}
 	// random picks (only for one store/role per call to keep the cost bounded)
-	if err := checkRandom(ri, m, keys, full); err != nil {
+	if err := checkRandom(bc, ri, m, keys, full); err != nil {
 		return err
 	}
 	return nil
@@ -821,6 +821,22 @@ type roleFn struct {
 	name string
 	pick func(ri *core.RegionsInfo, s uint64, rs []core.KeyRange) *core.RegionInfo
 	has  func(r *mreg, s uint64) bool
+}
+
+// The schedulers do not call RegionsInfo.Rand*Region but BasicCluster.Rand*Region, which goes through the plural
+// RegionsInfo.Rand*Regions(store, ranges, n) helpers (regionTree.RandomRegions) and takes the first accepted element.
+var pluralPicks = map[string]func(ri *core.RegionsInfo, s uint64, rs []core.KeyRange, n int) []*core.RegionInfo{
+	"leader":   func(ri *core.RegionsInfo, s uint64, rs []core.KeyRange, n int) []*core.RegionInfo { return ri.RandLeaderRegions(s, rs, n) },
+	"follower": func(ri *core.RegionsInfo, s uint64, rs []core.KeyRange, n int) []*core.RegionInfo { return ri.RandFollowerRegions(s, rs, n) },
+	"learner":  func(ri *core.RegionsInfo, s uint64, rs []core.KeyRange, n int) []*core.RegionInfo { return ri.RandLearnerRegions(s, rs, n) },
+	"pending":  func(ri *core.RegionsInfo, s uint64, rs []core.KeyRange, n int) []*core.RegionInfo { return ri.RandPendingRegions(s, rs, n) },
+}
+
+var clusterPicks = map[string]func(bc *core.BasicCluster, s uint64, rs []core.KeyRange) *core.RegionInfo{
+	"leader":   func(bc *core.BasicCluster, s uint64, rs []core.KeyRange) *core.RegionInfo { return bc.RandLeaderRegion(s, rs) },
+	"follower": func(bc *core.BasicCluster, s uint64, rs []core.KeyRange) *core.RegionInfo { return bc.RandFollowerRegion(s, rs) },
+	"learner":  func(bc *core.BasicCluster, s uint64, rs []core.KeyRange) *core.RegionInfo { return bc.RandLearnerRegion(s, rs) },
+	"pending":  func(bc *core.BasicCluster, s uint64, rs []core.KeyRange) *core.RegionInfo { return bc.RandPendingRegion(s, rs) },
 }
 
 var roles = []roleFn{
@@ -865,7 +881,7 @@ var roles = []roleFn{
 		}},
 }
 
-func checkRandom(ri *core.RegionsInfo, m *model, keys []string, full bool) error {
+func checkRandom(bc *core.BasicCluster, ri *core.RegionsInfo, m *model, keys []string, full bool) error {
 	// ranges: whole space, and two ranges taken from the probe keys
 	var rangeSets [][]core.KeyRange
 	rangeSets = append(rangeSets, nil)
@@ -919,12 +935,39 @@ func checkRandom(ri *core.RegionsInfo, m *model, keys []string, full bool) error
 					}
 					seen[got] = true
 				}
+				// the same through the plural helper (n = 10 as the schedulers use it; about as many picks as above, so the
+				// coverage argument carries over) and through BasicCluster (membership only: it keeps one pick in ten)
+				seenN := map[*core.RegionInfo]bool{}
+				nPlural := draws/10 + 1
+				if s%3 != 1 {
+					nPlural = 1 // full depth on stores 1 and 4 only (cost)
+				}
+				for d := 0; d < nPlural; d++ {
+					for _, got := range pluralPicks[rf.name](ri, s, rs, 10) {
+						if got == nil || !cand[got] {
+							return fmt.Errorf("Rand%sRegions(store %d, ranges %s, 10) returned %v which is not a %s region of that store wholly inside a range",
+								rf.name, s, fmtRanges(ranges), got, rf.name)
+						}
+						seenN[got] = true
+					}
+					if bc == nil {
+						continue
+					}
+					if got := clusterPicks[rf.name](bc, s, rs); got != nil && !cand[got] {
+						return fmt.Errorf("BasicCluster.Rand%sRegion(store %d, ranges %s) returned region %d [%q,%q) which is not a %s region of that store wholly inside a range",
+							rf.name, s, fmtRanges(ranges), got.GetID(), got.GetStartKey(), got.GetEndKey(), rf.name)
+					}
+				}
 				if len(cand) == 0 {
 					continue
 				}
 				if cover && len(seen) != len(cand) {
 					return fmt.Errorf("Rand%sRegion(store %d, ranges %s): %d candidates by linear scan, only %d ever returned in %d draws",
 						rf.name, s, fmtRanges(ranges), len(cand), len(seen), draws)
+				}
+				if cover && s%3 == 1 && len(seenN) != len(cand) {
+					return fmt.Errorf("Rand%sRegions(store %d, ranges %s, 10): %d candidates by linear scan, only %d ever returned in %d calls",
+						rf.name, s, fmtRanges(ranges), len(cand), len(seenN), draws/10+1)
 				}
 			}
 		}
